@@ -269,10 +269,29 @@ func ruleINV1(c *Ctx) {
 				},
 				IsBlocker: func(in ssa.Instruction, st *AState) bool {
 					call, ok := in.(ssa.CallInstruction)
-					if !ok || !isInv(call) {
+					if !ok {
 						return false
 					}
-					return invalidationConcerns(call, recv, m)
+					if isInv(call) {
+						return invalidationConcerns(call, recv, m)
+					}
+					// a module helper that performs the invalidation on every path for the variable handed to it
+					callee := call.Common().StaticCallee()
+					if callee == nil || !fnInModule(callee) || callee.Blocks == nil || recv == nil {
+						return false
+					}
+					for i, arg := range call.Common().Args {
+						if i < len(callee.Params) && unspill(arg) == ssa.Value(recv) {
+							prm := callee.Params[i]
+							if mustPass(callee, func(x ssa.Instruction) bool {
+								c2, ok := x.(ssa.CallInstruction)
+								return ok && isInv(c2) && invalidationConcerns(c2, prm, m)
+							}) {
+								return true
+							}
+						}
+					}
+					return false
 				},
 			}
 			r := q.Run()
